@@ -73,7 +73,12 @@ func (s Kinds) Exclude(exclusions Kinds) Kinds {
 func (s Kinds) Remove(kind Kind) Kinds {
 	for idx, nodeKind := range s {
 		if kind == nodeKind {
-			return append(s[:idx], s[idx+1:]...)
+			// The remaining kinds are copied: shifting them down in place would change every other slice that shares
+			// this one's backing array, including the argument list of a caller that removes a node's own kinds
+			remaining := make(Kinds, 0, len(s)-1)
+			remaining = append(remaining, s[:idx]...)
+
+			return append(remaining, s[idx+1:]...)
 		}
 	}
 
